@@ -126,6 +126,7 @@ func (e *Engine) Verify(key string) (res *FuncResult) {
 		}
 	}
 	vc.entryLen = len(vc.cmds)
+	vc.root = fr
 	if fc != nil && fc.HasOwnW {
 		e.ownWritesScan(vc, fn, fc)
 	}
@@ -141,6 +142,9 @@ func (e *Engine) Verify(key string) (res *FuncResult) {
 				continue
 			}
 			sc := fr.baseScope(r.st)
+			if en.Local {
+				sc.pos = r.pos
+			}
 			fr.bindResults(sc, r.vals)
 			t, err := sc.compileBool(en.Expr)
 			if err != nil {
